@@ -420,7 +420,9 @@ class Input(object):
                 unlock_script = b''.join([bytes(varstr(w)) for w in self.witnesses])
             if not self.unlocking_script or self.strict:
                 if self.witness_type == 'p2sh-segwit':
-                    self.unlocking_script = varstr(b'\0' + varstr(self.public_hash))
+                    # Keep the script of a parsed input as it is
+                    if not self.unlocking_script:
+                        self.unlocking_script = varstr(b'\0' + varstr(self.public_hash))
                 elif self.witness_type == 'segwit':
                     self.unlocking_script = b''
                 elif unlock_script != b'':
@@ -462,7 +464,9 @@ class Input(object):
                     if signatures:
                         self.witnesses = unlock_script
                 elif self.witness_type == 'p2sh-segwit':
-                    self.unlocking_script = varstr(b'\0' + varstr(self.public_hash))
+                    # Keep the script of a parsed input as it is
+                    if not self.unlocking_script:
+                        self.unlocking_script = varstr(b'\0' + varstr(self.public_hash))
                     if signatures:
                         self.witnesses = unlock_script
                 elif unlock_script != b'': # and self.strict:
